@@ -17,6 +17,8 @@ import (
 )
 
 type Engine struct {
+	loopMap  map[*ssa.Function]map[int]int // current loop ordinal -> ordinal in the contract (only when the loop count changed)
+	bindBase bindingBase // locals and loops of the contracted functions on the tree the contracts were written against
 	siteCache  map[*ssa.Function]*siteTable
 	prog       *ssa.Program
 	fset       *token.FileSet
@@ -47,7 +49,7 @@ func NewEngine() *Engine {
 		leafCache: map[string][]Leaf{}, strIDs: map[string]int64{}, strByID: map[int64]string{},
 		typeIDs: map[string]int64{}, typeByID: map[int64]types.Type{}, fnIDs: map[*ssa.Function]int64{}, fnByID: map[int64]*ssa.Function{},
 		globalIDs: map[*ssa.Global]int64{}, fnByKey: map[string]*ssa.Function{}, loopCache: map[*ssa.Function][]*LoopInfo{},
-		allPkgs: map[string]*packages.Package{}, maxInline: 6, maxPaths: 20000,
+		allPkgs: map[string]*packages.Package{}, maxInline: 6, maxPaths: 20000, bindBase: loadBindingBase(),
 	}
 }
 
@@ -268,8 +270,11 @@ type Frame struct {
 	paramVal map[string]Val
 	// names of function-typed parameters → for sub-contracts
 	callOrd  map[string]int
+	unroll   map[*ssa.BasicBlock]int // arrivals at the heads of loops that are unrolled (copy on write)
 	retRes   ssa.Value
 	retDefer bool
+	inArgs   []Val   // inlined callee: the arguments and the byte contents they had at the call, for observers
+	inSnaps  []*Term
 }
 
 type activeLoop struct {
@@ -284,6 +289,11 @@ type activeLoop struct {
 	havocSym map[string]*Term
 	broken   map[string]bool  // shared with the dry runs: arrays for which this does not hold
 	kept     map[string]*Term // adopted: name -> heap term on loop entry
+	// ghost state (observers, channel counters): the values on loop entry, and the ghosts that
+	// some iteration changes (found by the dry runs, shared with them)
+	ghostW      map[string]bool // bases of the ghosts some iteration changes
+	ghostSample map[string]Val  // key -> a value seen for it (shape for the havoc at the head)
+	headGhosts  map[string]Val  // ghost state at the head of the current iteration
 }
 
 type State struct {
@@ -296,6 +306,7 @@ type State struct {
 	oldHeap       map[string]*Term
 	frames        []*Frame
 	ghosts        map[string]Val
+	inlCallSeen   map[string]int // calls made from inlined helpers so far, per callee name (copy on write)
 	closures      map[string]VFunc
 	trail         []string
 	written       map[string]bool
